@@ -15,6 +15,8 @@ class TranslatorPython(Translator):
     __LANG__ = "Python"
     # Operations translation
     op_no_translate = ["+", "-", "/", "%", ">>", "<<", "&", "^", "|", "*"]
+    # Miasm operators whose Python spelling differs ('/' is an integer division)
+    op_python = {"/": "//"}
 
     def from_ExprInt(self, expr):
         return str(expr)
@@ -67,7 +69,7 @@ class TranslatorPython(Translator):
                 )
             else:
                 return "((%s) & 0x%x)" % (
-                    (" %s " % expr.op).join(args),
+                    (" %s " % self.op_python.get(expr.op, expr.op)).join(args),
                     (1 << expr.size) - 1
                 )
         elif expr.op == "parity":
